@@ -157,9 +157,16 @@ func (sesh *Session) OpenStream() (*Stream, error) {
 	}
 	stream := makeStream(sesh, id)
 	sesh.streamsM.Lock()
+	if sesh.IsClosed() {
+		// the session was closed after the check above: closeSession has already swept the stream table (or is
+		// about to, and would decrement a count we have not incremented yet), so do not register a stream nobody
+		// would ever close
+		sesh.streamsM.Unlock()
+		return nil, ErrBrokenSession
+	}
 	sesh.streams[id] = stream
-	sesh.streamsM.Unlock()
 	sesh.streamCountIncr()
+	sesh.streamsM.Unlock()
 	log.Tracef("stream %v of session %v opened", id, sesh.id)
 	return stream, nil
 }
